@@ -349,6 +349,7 @@ class WholeSystem(Part):
             elif mode == 'update':
                 ss = base
                 nbad = 0
+                self._nleft = 0
                 for (s, f, v, alt) in fields:
                     cfg = _cfg(ss, s)
                     if isinstance(alt, (tuple, set, frozenset)) and not isinstance(alt, str):
@@ -364,7 +365,13 @@ class WholeSystem(Part):
                                 out.bad('update_accepts_illegal_value',
                                         f'{s}.config.update({f}={illegal!r}) accepted; alternatives {alt}')
                         except ValueError:
-                            pass
+                            # rejected means not in effect: the field still holds the last accepted value
+                            if cfg.__dict__[f] != legal:
+                                nleft = getattr(self, '_nleft', 0) + 1
+                                self._nleft = nleft
+                                if nleft == 1:
+                                    out.bad('rejected_value_left_in_effect', f'{s}.config.update({f}={illegal!r}) raised ValueError, yet '
+                                            f'{s}.config.{f} is now {cfg.__dict__[f]!r} (was {legal!r})')
                         cfg.__dict__[f] = v
                 out.obs = dict(mode=mode, illegal_accepted=nbad)
                 return out
